@@ -86,7 +86,18 @@ def unknown_ancestors(flow):
             pflow = getattr(pscope, 'flow', None)
             if isinstance(pflow, Flow):
                 todo.append(pflow)
-    return sorted(found.values(), key=lambda f: f.index)
+    def age(f):
+        # type: (Flow) -> tuple[int, int]
+        # a nested scope starts from the final table of the scope around
+        # it, whose regions may well be younger than its own
+        depth = 0
+        scope = f.scope
+        while scope is not f.scope.top:
+            depth += 1
+            scope = scope.parent
+        return depth, f.index
+
+    return sorted(found.values(), key=age)
 
 
 class LoopResolution(object):
